@@ -80,6 +80,14 @@ def gen_cases(rng, tier):
                 ops.append(["q_bin", rng.choice(["mul", "div"]),
                             *rng.sample([f"{a}@{u}", f"{b}@{w}"], 2), mode])
         cases.append(_qty.case_of(ctx, ops, ["quantised"]))
+    # money: arithmetic across currencies under an active converter, all modes
+    # (the exact result on the stored operands is rounded ONCE)
+    from props import C12
+    for c in C12.gen_cases(rng, "quick")[:10 if tier != "thorough" else 25]:
+        if "money-stack" in c["tags"]:
+            c["tags"] = ["money-converter"]
+            c["delegate"] = "C12"
+            cases.append(c)
     return cases
 
 
@@ -88,6 +96,9 @@ def search_cases(rng, focus, broken):
 
 
 def oracle(case, impl):
+    if case.get("delegate") == "C12":
+        from props import C12
+        return [f for f in C12.oracle(case, impl) if f["site"] == "stack:conversion"]
     ctx = _qty.ctx_of(case)
     fails = _qty.setup_failures(case, impl)
     for o, out in list(zip(case["ops"], impl))[case["nsetup"]:]:
@@ -145,6 +156,8 @@ def oracle(case, impl):
 
 def nontrivial_key(case, impl):
     keys = set()
+    if case.get("delegate"):
+        return {("money", o[1], o[-1]) for o in case["ops"] if o[0] == "q_bin"}
     for o, out in list(zip(case["ops"], impl))[case["nsetup"]:]:
         keys.add((o[0], o[1] if o[0] in ("q_bin", "q_num") else "", o[-1], out.rpartition("@")[2]))
     return keys
